@@ -1172,6 +1172,8 @@ func (d *HAMTDirectory) needsToSwitchToBasicDir(ctx context.Context, name string
 		if err != nil {
 			return false, err
 		}
+		// MakeLink leaves the name empty: size the new entry under its name.
+		link.Name = name
 		operationSizeChange += d.linkSizeFor(link)
 	}
 
